@@ -1,0 +1,10 @@
+//go:build verif
+
+package filters
+
+import "time"
+
+// VerifSetDeadline lets the verification harness (hook H4) shorten the inactivity deadline of polled
+// filters, so that timeoutLoop and the deadline timers fire within a test run. It must be called before
+// NewPublicAPI; it does not exist without the build tag `verif`.
+func VerifSetDeadline(d time.Duration) { deadline = d }
